@@ -7,4 +7,4 @@ Require Import ExtrOcamlBasic.
 Extraction Language OCaml.
 Extraction "model.ml" jenc jenc_pretty jdecode dagjson_eopts json_eopts dagjson_dopts json_dopts
   sort_maps dm_eqb bytes_ltb rfc_ltb bytes_eqb f64_is_nan f64_finite f64_integral_small
-  json_number has_dot_or_e int_prefix_len utf8_valid b64_encode b64_decode_go in_int64 f64_exp f64_man json_safe jdepth float_text_ok float_text_frac.
+  json_number has_dot_or_e int_prefix_len utf8_valid b64_encode b64_decode_go in_int64 f64_exp f64_man json_safe jdepth float_text_ok float_text_frac dm_depth.
